@@ -24,6 +24,7 @@ pub enum Step {
   Require(u8, u8),     // task, checker kind: 0 equals, 1 always-consistent, 2 within-1-of-the-stamped-output
   Write(u8, u8),       // resource, constant added to the accumulator
   WrittenTo(u8, u8),   // resource: create_writer + written_to
+  WrittenToBadStamp(u8, u8), // the same, declared with a checker whose stamping fails: the task gets an Err back (and ignores it)
   IfOdd(Vec<Step>, Vec<Step>),
 }
 thread_local! {
@@ -72,6 +73,17 @@ impl ResourceChecker<Res> for FlakyChecker {
     if FAIL_CHECK.with(|f| f.get()) { return Err(CheckFailed); }
     let now = s.get_global_map().get(k).copied(); Ok(if now != *stamp { Some(now) } else { None })
   }
+  fn wrap_error(&self, e: std::convert::Infallible) -> CheckFailed { match e {} }
+}
+
+/// a checker that cannot stamp at all (every stamping route fails)
+#[derive(Copy, Clone, PartialEq, Eq, Hash, Debug)] pub struct StampFails;
+impl ResourceChecker<Res> for StampFails {
+  type Stamp = Option<u8>; type Error = CheckFailed;
+  fn stamp<RS: ResourceState<Res>>(&self, _k: &Res, _s: &mut RS) -> Result<Option<u8>, CheckFailed> { Err(CheckFailed) }
+  fn stamp_reader(&self, _k: &Res, _r: &mut Option<&u8>) -> Result<Option<u8>, CheckFailed> { Err(CheckFailed) }
+  fn stamp_writer(&self, _k: &Res, _w: MapWriter<'_, Res>) -> Result<Option<u8>, CheckFailed> { Err(CheckFailed) }
+  fn check<RS: ResourceState<Res>>(&self, _k: &Res, _s: &mut RS, _stamp: &Option<u8>) -> Result<Option<impl Debug>, CheckFailed> { Ok(None::<u8>) }
   fn wrap_error(&self, e: std::convert::Infallible) -> CheckFailed { match e {} }
 }
 
@@ -137,6 +149,12 @@ fn exec<C: Context>(steps: &[Step], c: &mut C, acc: &mut u32) {
         SHADOW.with(|m| { m.borrow_mut().insert(*r, val); });
         c.written_to(&Res(*r), MapEqualsChecker).unwrap();
         seen("write", format!("Res({})", r), format!("{:?}", Some(val)));
+      }
+      Step::WrittenToBadStamp(r, add) => {
+        let val = (*acc as u8).wrapping_add(*add);
+        { let key = Res(*r); let mut w = c.create_writer(&key).unwrap(); w.insert(val); }
+        SHADOW.with(|m| { m.borrow_mut().insert(*r, val); });
+        let _ = c.written_to(&Res(*r), StampFails);
       }
       Step::IfOdd(a, b) => { if *acc % 2 == 1 { exec(a, c, acc) } else { exec(b, c, acc) } }
     }
@@ -632,6 +650,16 @@ pub fn violation_cases() -> Vec<(&'static str, &'static str, Vec<Vec<Step>>, Vec
     // a task that requires the generator and READS the generated resource (legal) and then writes it: still an overlapping write
     ("C06", "C06.bounded.overlap_by_a_task_that_already_reads_the_resource_aborts", vec![vec![Require(1, 1), Read(2, 0), Write(2, 2)], vec![Write(2, 1)]], vec![Act::TopDown(0)], "Overlapping write"),
     ("C06", "C06.bounded.declared_overlap_by_a_task_that_already_reads_the_resource_aborts", vec![vec![Require(1, 1), Read(2, 0), WrittenTo(2, 2)], vec![Write(2, 1)]], vec![Act::TopDown(0)], "Overlapping write"),
+    // T0 reads resource 2, writes it and then requires T1, which writes it too: never two writers (the unchanged code refuses T0's own write)
+    // two readers of resource 2 are recorded before T3 starts writing it: the first (T1) requires T3, the later one (T2) does not
+    ("C05", "C05.bounded.hidden_write_with_a_compliant_reader_recorded_first_aborts", vec![vec![], vec![Require(3, 1), Read(2, 0)], vec![Read(2, 0)], vec![Read(0, 1), IfOdd(vec![Write(2, 1)], vec![])]],
+       vec![Act::Set(0, 1), Act::TopDown(1), Act::TopDown(2), Act::Set(0, 0), Act::TopDown(3)], "Hidden dependency"),
+    // the writer T0 requires T1; in a later session T1 starts reading what T0 generates (it cannot depend on T0: that would be a cycle)
+    ("C05", "C05.bounded.hidden_read_by_a_task_the_writer_requires_aborts", vec![vec![Require(1, 1), Write(2, 1)], vec![Read(0, 1), IfOdd(vec![Read(2, 1)], vec![])]],
+       vec![Act::Set(0, 1), Act::TopDown(0), Act::Set(0, 0), Act::TopDown(0)], "Hidden dependency"),
+    ("C06", "C06.bounded.second_writer_after_a_read_then_write_task_never_succeeds", vec![vec![Read(2, 0), Write(2, 1), Require(1, 1)], vec![Write(2, 2)]], vec![Act::TopDown(0)], "Hidden dependency"),
+    // the second writer declares its write with a checker that cannot stamp: the overlap is diagnosed all the same
+    ("C06", "C06.bounded.declared_overlap_is_diagnosed_even_if_stamping_fails", vec![vec![Require(1, 1), Require(2, 1)], vec![Write(2, 1)], vec![WrittenToBadStamp(2, 2)]], vec![Act::TopDown(0)], "Overlapping write"),
     ("C06", "C06.bounded.overlapping_write_aborts", vec![vec![Require(1, 1), Require(2, 1)], vec![Write(2, 1)], vec![Write(2, 2)]], vec![Act::TopDown(0)], "Overlapping write"),
     ("C06", "C06.bounded.overlapping_declared_write_aborts", vec![vec![Require(1, 1), Require(2, 1)], vec![Write(2, 1)], vec![WrittenTo(2, 2)]], vec![Act::TopDown(0)], "Overlapping write"),
     ("C06", "C06.bounded.overlap_with_requirer_that_wrote_first_aborts", vec![vec![Write(2, 1), Require(1, 1)], vec![Write(2, 2)]], vec![Act::TopDown(0)], "Overlapping write"),
